@@ -17,6 +17,10 @@ func c03Universe(which int) []TNode {
 	f := func(p string) TNode { return TNode{Path: "src/" + p, Kind: "file", Body: p} }
 	var ns []TNode
 	common := []string{".git/x", ".terraform/y", ".terraform/modules/m", "sub/.git/x", "sub/.terraform/modules/m", "sub/.terraform/z", "sub/a"}
+	if which == 1 || which == 2 {
+		// regular FILES named like the directories the built-in rules are about (a worktree's or submodule's .git file)
+		common = append(common, "w/.git", "w/.terraform")
+	}
 	var files []string
 	if which == 1 {
 		files = []string{"a/a", "a/b", "a/ab/a", "a/ab/b", "ab/a", "ab/b/a", "ab/b/ab", "b", "aab", "a+b", "a.b", "axb", "(a)", "é", "a/é", "A", "B/a"}
@@ -141,6 +145,8 @@ func RunC03(tier string) int {
 			switch j.special {
 			case "":
 				nodes = append(nodes, TNode{Path: "src/.terraformignore", Kind: "file", Body: text})
+			case "absent":
+				// no rule file at all: the library's shared default rule set, not a parsed copy of it
 			case "dir":
 				nodes = append(nodes, TNode{Path: "src/.terraformignore", Kind: "dir"})
 			case "fifo":
@@ -155,7 +161,7 @@ func RunC03(tier string) int {
 			rep.Evaluations++
 			desc := fmt.Sprintf("consumer=%s universe=%d rules=%s final-newline=%v", j.cons.Name, j.universe, rulesDesc(j.rules), !j.noNL)
 			if j.special != "" {
-				desc = fmt.Sprintf("consumer=%s universe=%d rule file is a %s (only the built-in rules can apply)", j.cons.Name, j.universe, j.special)
+				desc = fmt.Sprintf("consumer=%s universe=%d rule file: %s (only the built-in rules can apply)", j.cons.Name, j.universe, j.special)
 			}
 			if r.Hung || r.Crashed {
 				rep.Violation("slug.Pack/hang-or-crash", desc+" "+firstLines(r.Stderr, 3), "pack", args[i])
@@ -276,7 +282,7 @@ func RunC03(tier string) int {
 	{
 		// the rule file is there but is not a regular file; and lines far longer than any buffer
 		var js []job
-		for _, sp := range []string{"dir", "fifo", "link-to-fifo"} {
+		for _, sp := range []string{"absent", "dir", "fifo", "link-to-fifo"} {
 			for _, j := range mk([][]string{{}}, []int{1, 2}, consumers) {
 				j.special = sp
 				js = append(js, j)
@@ -497,7 +503,6 @@ func c03Classify(rules []string, c c03Consumer, wrongIn, wrongOut []string) stri
 	}
 	return strings.Join(parts, "/")
 }
-
 
 // rulesDesc prints a rule file for a report: runs of identical lines are collapsed and very long lines abbreviated.
 func rulesDesc(rules []string) string {
